@@ -640,6 +640,63 @@ def copy_sources_advance(run, fns, rule='R9', instance='copy-source-advances'):
     return n
 
 
+def cursor_offset_pairs(run, fns, rule='R9', instance='offset-reset-with-cursor'):
+    """A copy in a loop whose operand is `<cursor>->data() + <offset>` (cursor: an iterator local stepped in the loop,
+    offset: a local that lives across iterations) addresses "offset bytes into the element the cursor points at".  The
+    pair is consistent only if every step of the cursor is followed by a plain assignment of the offset before the
+    next copy: of the events {step of the cursor, `offset = ...`} the one that reaches the copy last must never be a
+    step.  Otherwise the first bytes copied into the next element land `offset` bytes in (past its end when the
+    elements are equally long) while every count stays right.  Returns the number of pairs examined."""
+    n = 0
+    for fn in fns:
+        if fn.cfg is None:
+            continue
+        for c in fn.calls():
+            if q.callee_name(c) not in COPY_FNS or len(c.get('args', [])) < 3:
+                continue
+            loops = [a for a in fn.ancestors(c) if a['k'] in LOOPS]
+            if not loops:
+                continue
+            outer = loops[-1]
+            decl_in_loop = {v['did'] for x in walk(outer) if x['k'] == 'decl' for v in x['vars']}
+            for arg in c['args'][:2]:
+                e = q.strip_casts(arg)
+                if not (is_node(e) and e['k'] == 'bin' and e['op'] == '+'):
+                    continue
+                base, off = q.strip_casts(e['lhs']), q.strip_casts(e['rhs'])
+                if not (is_node(off) and off['k'] == 'ref' and off.get('dk') == 'local' and off['did'] not in decl_in_loop):
+                    continue
+                curs = [x for x in walk(base) if x['k'] == 'ref' and x.get('dk') == 'local' and x['did'] not in decl_in_loop and x['did'] != off['did']]
+                for cur in curs:
+                    steps, resets = [], []
+                    for x in walk(outer):
+                        t = None
+                        if x['k'] == 'un' and ('++' in x['op'] or '--' in x['op']):
+                            t = q.strip_casts(x['e'])
+                        elif x['k'] == 'call' and x.get('opc') in ('++', '--', '+=', '-=', '=') and x.get('args'):
+                            t = q.strip_casts(x['args'][0])
+                        elif x['k'] == 'bin' and x['op'] in ('=', '+=', '-='):
+                            t = q.strip_casts(x['lhs'])
+                        if not (is_node(t) and t['k'] == 'ref'):
+                            continue
+                        if t.get('did') == cur['did']:
+                            steps.append(x)
+                        elif t.get('did') == off['did'] and ((x['k'] == 'bin' and x['op'] == '=') or (x['k'] == 'call' and x.get('opc') == '=')):
+                            resets.append(x)
+                    if not steps:
+                        continue
+                    n += 1
+                    run.touch(fn)
+                    ev, _ = q.reaching_events(fn, steps + resets, c)
+                    bad = [x for x in ev if any(x is s_ for s_ in steps)]
+                    top = q.top_function(run.fx, fn).norm
+                    run.check(not bad, rule, instance, '%s: %s + %s' % (top, q.render(fn, base)[:40], q.render(fn, off)), fn.loc(bad[0] if bad else c),
+                              'the cursor %s is stepped (line %s) and the copy at line %s can be reached without %s being re-assigned: the offset still counts bytes of the PREVIOUS element, so the next chunk is written %s bytes into the new element - past its end for equally sized buffers - while the byte counts stay right'
+                              % (q.render(fn, cur), bad[0].get('l') if bad else '', c.get('l'), q.render(fn, off), q.render(fn, off)),
+                              'every step of %s is followed by an assignment of %s before the next copy' % (q.render(fn, cur), q.render(fn, off)))
+    return n
+
+
 def _source_varies(fn, src, loops):
     inner = loops[0]            # ancestors(): innermost first
     body_nodes = list(walk(inner))
